@@ -21,6 +21,12 @@ func init() {
 
 func c02() []*Ob {
 	return []*Ob{
+		{Prop: "C02", ID: "C02.16", Engine: "SHAPE(dedup on entry)", Floor: 1,
+			Desc:  "a document is in a token's list once: in frac.mergeSorted the parameter fed from TokenLIDs.getQueuedLIDs (the queue holds one entry per occurrence of the token, so a LID can be queued twice) is never appended to the result in spread form, and each single element of it is appended behind an (in)equality test — a 'the batch is newer than everything merged, just put it in front' fast path keeps the repeat: matches+1 in totals, aggregations and histograms, and the duplicate is sealed",
+			Check: func(c *Ctx) { queuedLIDsEnterOneByOne(c) }},
+		{Prop: "C02", ID: "C02.15", Engine: "SINK(map key)", Floor: 1,
+			Desc:  "each leaf of the query is resolved by its own expression: the hint of a token expression never keys a map (shared rule with C13.13) — with a leaf cache keyed by field and hint, `k:*c OR k:*d` or `n:[0 TO 2] OR n:[8 TO 10]` evaluate the second leaf with the first leaf's tokens and return the wrong documents",
+			Check: shared("C13.13")},
 		{Prop: "C02", ID: "C02.13", Engine: "PAIR(two sites)", Floor: 1,
 			Desc:  "an empty or inverted time window ends: nodeRange.Next stops on an ordering test, or — if it stops on equality with one value — getLIDsBorders searches the second border from the result of the first (so max >= min-1 always). With both relaxed a NOT query over a window with from > to returns documents for an empty range, and with total it never ends",
 			Check: func(c *Ctx) { rangeNodeEndsOnEmptyWindow(c) }},
